@@ -65,7 +65,7 @@ let next_op st =
   | t -> failwith ("bad op " ^ t)
 let next_ending st =
   match next st with
-  | "finish" -> Finish | "raise" -> Raise | "sysexit" -> SysExit | "osexit" -> OsExit
+  | "finish" -> Finish | "raise" -> Raise | "sysexit" -> SysExit | "osexit" -> OsExit | "unreadable" -> Unreadable
   | t -> failwith ("bad ending " ^ t)
 let next_prog st = let ops = next_list st next_op in let e = next_ending st in (ops, e)
 
@@ -138,6 +138,13 @@ let handle line =
   | "L" ->
     let (keys, s) = next_state st in
     print_state keys (interleaved_outer s)
+  | "T" ->
+    (* two PEP 517 analyses on two threads: cwd0 srcA srcB dirsA dirsB schedule(1 = thread A) *)
+    let cwd0 = next_str st in let a = next_str st in let b = next_str st in
+    let da = next_list st next_str in let db = next_list st next_str in
+    let sched = next_list st next_bool in
+    let t = two_pyproject cwd0 a b da db sched in
+    cl_hex t.t_cwd ^ " " ^ (if t.t_remA = [] && t.t_remB = [] then "done" else "running")
   | "F" ->
     let tree = next_list st next_str in
     let ops = next_list st (fun st ->
